@@ -137,7 +137,8 @@ impl FnGhost {
         if self.f.flavour == Flavour::Thread {
             None
         } else {
-            Some(l1::list_keys(self.f.name).unwrap_or_default().iter().map(|s| key_of(s)).collect())
+            // (a function without arguments has the single key "": shown as key 0)
+            Some(l1::list_keys(self.f.name).unwrap_or_default().iter().map(|s| if self.f.zero_arg && s.is_empty() { 0 } else { key_of(s) }).collect())
         }
     }
 
@@ -333,6 +334,7 @@ impl Machine {
                     let w = Worker::spawn();
                     let mut r = Vec::new();
                     for k in &keys {
+                        let k = &(if f.zero_arg { 0 } else { *k });
                         l1::log_take();
                         let x = w.call(f, *k);
                         let executed = l1::log_take().iter().any(|e| matches!(e, Ev::Exec { .. }));
@@ -682,6 +684,7 @@ fn call_step(g: &mut FnGhost, k: u32, now: u64, out: &mut StepOut) {
 fn call_step_on(g: &mut FnGhost, k: u32, now: u64, out: &mut StepOut, worker: Option<&Worker>) {
     let f = g.f;
     let fam = f.family;
+    let k = if f.zero_arg { 0 } else { k };
     let first_finding = out.findings.len();
     let pre_listed = g.listed();
     if let Some(pl) = &pre_listed {
